@@ -57,7 +57,9 @@ impl<P: PathApi> PathApi for Sub<P> {
         self.inner.is_dir()
     }
     fn read_dir(&self) -> R<Vec<Self>> {
-        self.inner.read_dir().map(|v| v.into_iter().map(|p| self.wrap(p)).collect())
+        self.inner
+            .read_dir()
+            .map(|v| v.into_iter().map(|p| self.wrap(p)).collect())
     }
     fn read_all(&self) -> R<Vec<u8>> {
         self.inner.read_all()
@@ -66,7 +68,9 @@ impl<P: PathApi> PathApi for Sub<P> {
         self.inner.read_to_string()
     }
     fn walk(&self) -> R<Vec<R<Self>>> {
-        self.inner.walk().map(|v| v.into_iter().map(|i| i.map(|p| self.wrap(p))).collect())
+        self.inner
+            .walk()
+            .map(|v| v.into_iter().map(|i| i.map(|p| self.wrap(p))).collect())
     }
     fn create_dir(&self) -> R<()> {
         self.inner.create_dir()
@@ -167,7 +171,12 @@ impl Sys for SyncSys {
         self.built
             .bases
             .iter()
-            .map(|b| (b.label.clone(), snapshot(&b.raw, &self.base_probes(b, probes))))
+            .map(|b| {
+                (
+                    b.label.clone(),
+                    snapshot(&b.raw, &self.base_probes(b, probes)),
+                )
+            })
             .collect()
     }
     fn outside(&self, p: &str) -> Vec<String> {
@@ -227,7 +236,8 @@ impl PairSpace {
                 }
             }
         }
-        if let Op::CopyDir(p, q) | Op::MoveDir(p, q) | Op::CopyFile(p, q) | Op::MoveFile(p, q) = op {
+        if let Op::CopyDir(p, q) | Op::MoveDir(p, q) | Op::CopyFile(p, q) | Op::MoveFile(p, q) = op
+        {
             if is_within(q, p) && p != q {
                 return false;
             }
@@ -243,7 +253,15 @@ impl PairSpace {
         if self.typed_domain {
             before.to_model().in_typed_domain(op)
         } else {
-            !(op.path().is_empty() && matches!(op, Op::RemoveDir(_) | Op::RemoveFile(_) | Op::RemoveDirAll(_) | Op::MoveDir(..) | Op::MoveFile(..)))
+            !(op.path().is_empty()
+                && matches!(
+                    op,
+                    Op::RemoveDir(_)
+                        | Op::RemoveFile(_)
+                        | Op::RemoveDirAll(_)
+                        | Op::MoveDir(..)
+                        | Op::MoveFile(..)
+                ))
         }
     }
     fn want_full(&self, sig: &str) -> bool {
@@ -290,42 +308,100 @@ impl PairSpace {
         let tc = tclass(before, op.path());
         let head = format!("{}|{}|{}", self.label, op.name(), tc);
         if let Outcome::Panic(m) = oa {
-            v.push((format!("{}|panic-left", head), format!("{} panicked on the first system: {}", op.show(), m)));
+            v.push((
+                format!("{}|panic-left", head),
+                format!("{} panicked on the first system: {}", op.show(), m),
+            ));
         }
         if let Outcome::Panic(m) = ob {
-            v.push((format!("{}|panic-right", head), format!("{} panicked on the second system: {}", op.show(), m)));
+            v.push((
+                format!("{}|panic-right", head),
+                format!("{} panicked on the second system: {}", op.show(), m),
+            ));
+        }
+        if self.alphabet.setters && sa.time_flags() != sb.time_flags() {
+            v.push((
+                format!("{}|timestamps-differ", head),
+                format!("{}: the entries that carry the instant written by the setters differ: first system {:?}, second {:?}", op.show(), sa.time_flags(), sb.time_flags()),
+            ));
         }
         if oa.is_ok() != ob.is_ok() {
             v.push((
                 format!("{}|left={}|right={}", head, oa.class(), ob.class()),
-                format!("{} ({}): first system {}, second system {}", op.show(), tc, oa.short(), ob.short()),
+                format!(
+                    "{} ({}): first system {}, second system {}",
+                    op.show(),
+                    tc,
+                    oa.short(),
+                    ob.short()
+                ),
             ));
         } else if let (Outcome::Ok(x), Outcome::Ok(y)) = (oa, ob) {
             if x != y {
-                v.push((format!("{}|return-values-differ", head), format!("{}: first system returned {:?}, second {:?}", op.show(), x, y)));
+                v.push((
+                    format!("{}|return-values-differ", head),
+                    format!(
+                        "{}: first system returned {:?}, second {:?}",
+                        op.show(),
+                        x,
+                        y
+                    ),
+                ));
             }
         } else if let (Outcome::Err(x), Outcome::Err(y)) = (oa, ob) {
             let same_kind_needed = matches!(self.mode, PairMode::Port);
             if same_kind_needed {
                 if x.kind != y.kind {
                     v.push((
-                        format!("{}|left=Err({})|right=Err({})", head, x.kind.name(), y.kind.name()),
-                        format!("{} ({}): error kinds differ: {} vs {}", op.show(), tc, x.display, y.display),
+                        format!(
+                            "{}|left=Err({})|right=Err({})",
+                            head,
+                            x.kind.name(),
+                            y.kind.name()
+                        ),
+                        format!(
+                            "{} ({}): error kinds differ: {} vs {}",
+                            op.show(),
+                            tc,
+                            x.display,
+                            y.display
+                        ),
                     ));
                 }
             } else {
                 let missing = tc == "absent" && op.dest().is_none();
                 if missing && (x.kind == Kind::NotFound) != (y.kind == Kind::NotFound) {
                     v.push((
-                        format!("{}|not-found-class|left=Err({})|right=Err({})", head, x.kind.name(), y.kind.name()),
-                        format!("{} on an entry missing from an existing directory: {} vs {}", op.show(), x.display, y.display),
+                        format!(
+                            "{}|not-found-class|left=Err({})|right=Err({})",
+                            head,
+                            x.kind.name(),
+                            y.kind.name()
+                        ),
+                        format!(
+                            "{} on an entry missing from an existing directory: {} vs {}",
+                            op.show(),
+                            x.display,
+                            y.display
+                        ),
                     ));
                 }
                 let ex = |k: Kind| k == Kind::FileExists || k == Kind::DirExists;
                 if ex(x.kind) != ex(y.kind) {
                     v.push((
-                        format!("{}|already-exists-class|left=Err({})|right=Err({})", head, x.kind.name(), y.kind.name()),
-                        format!("{} ({}): already-exists classification differs: {} vs {}", op.show(), tc, x.display, y.display),
+                        format!(
+                            "{}|already-exists-class|left=Err({})|right=Err({})",
+                            head,
+                            x.kind.name(),
+                            y.kind.name()
+                        ),
+                        format!(
+                            "{} ({}): already-exists classification differs: {} vs {}",
+                            op.show(),
+                            tc,
+                            x.display,
+                            y.display
+                        ),
                     ));
                 }
             }
@@ -333,10 +409,26 @@ impl PairSpace {
         if !sa.same_tree(sb) {
             let da = sa.dump();
             let db = sb.dump();
-            let diff: Vec<String> = da.iter().filter(|l| !db.contains(l)).map(|l| format!("first: {}", l)).chain(db.iter().filter(|l| !da.contains(l)).map(|l| format!("second: {}", l))).collect();
+            let diff: Vec<String> = da
+                .iter()
+                .filter(|l| !db.contains(l))
+                .map(|l| format!("first: {}", l))
+                .chain(
+                    db.iter()
+                        .filter(|l| !da.contains(l))
+                        .map(|l| format!("second: {}", l)),
+                )
+                .collect();
             v.push((
                 format!("{}|trees-differ|{}", head, oa.class()),
-                format!("after {} ({}) the observable trees differ: {}; walks {:?} vs {:?}", op.show(), tc, diff.join(" ; "), sa.walk_set(), sb.walk_set()),
+                format!(
+                    "after {} ({}) the observable trees differ: {}; walks {:?} vs {:?}",
+                    op.show(),
+                    tc,
+                    diff.join(" ; "),
+                    sa.walk_set(),
+                    sb.walk_set()
+                ),
             ));
         }
         if let PairMode::AltTwin { p } = &self.mode {
@@ -374,7 +466,16 @@ impl PairSpace {
             // confinement: nothing outside P changed in the filesystem the altroot is rooted in
             let after_outside = a.outside(p);
             if *outside_before != after_outside {
-                v.push((format!("{}|changed-outside-altroot", head), format!("{} changed the underlying filesystem outside {:?}: before {:?} after {:?}", op.show(), p, outside_before, after_outside)));
+                v.push((
+                    format!("{}|changed-outside-altroot", head),
+                    format!(
+                        "{} changed the underlying filesystem outside {:?}: before {:?} after {:?}",
+                        op.show(),
+                        p,
+                        outside_before,
+                        after_outside
+                    ),
+                ));
             }
         }
         v
@@ -406,7 +507,11 @@ impl Space for PairSpace {
             vio.push(Violation {
                 property: self.property.clone(),
                 signature: format!("{}|initial-trees-differ", self.label),
-                summary: format!("initial observable trees differ: {:?} vs {:?}", sa.dump(), sb.dump()),
+                summary: format!(
+                    "initial observable trees differ: {:?} vs {:?}",
+                    sa.dump(),
+                    sb.dump()
+                ),
                 replay: self.replay(&[], None, json!({})),
             });
         }
@@ -439,7 +544,18 @@ impl Space for PairSpace {
             let sa = a.observe(probes);
             let sb = b.observe(probes);
             e.transitions += 1;
-            let vs = self.compare(op, &before, &oa, &ob, &sa, &sb, &log_a, &outside_before, a.as_ref(), b.as_ref());
+            let vs = self.compare(
+                op,
+                &before,
+                &oa,
+                &ob,
+                &sa,
+                &sb,
+                &log_a,
+                &outside_before,
+                a.as_ref(),
+                b.as_ref(),
+            );
             let diverged = !vs.is_empty();
             for (sig, summary) in vs {
                 *e.vio_counts.entry(sig.clone()).or_insert(0) += 1;
@@ -453,7 +569,9 @@ impl Space for PairSpace {
                 }
             }
             let key = self.key(a.as_ref(), b.as_ref());
-            *e.counters.entry(format!("{}:{}", op.name(), oa.class())).or_insert(0) += 1;
+            *e.counters
+                .entry(format!("{}:{}", op.name(), oa.class()))
+                .or_insert(0) += 1;
             let tc = tclass(&before, op.path());
             if key != st.key || (oa.is_err() && !tc.starts_with("absent-")) {
                 let mut h = std::collections::hash_map::DefaultHasher::new();
